@@ -385,8 +385,9 @@ class Color:
         raise ValueError('Cannot format non-color')
 
     def _rgbatohex_raw(self, rgba):
+        # channels of the functional notation rgba(r,g,b,a) are decimal
         values = [
-            "%x" % int(v)
+            "%d" % int(v)
             for v in [0xff if h > 0xff else 0 if h < 0 else h for h in rgba]
         ]
         return values
